@@ -246,6 +246,29 @@ func checkMathRand(p *Program, r *Result) {
 			} else {
 				bad = confinedTo(v, func(call ssa.CallInstruction) bool {
 					cc := call.Common()
+					// "grease-" + strconv.FormatInt(n, 16): the formatted number goes nowhere else
+					if n := calleeName(cc); n == "strconv.FormatInt" || n == "strconv.FormatUint" || n == "strconv.Itoa" {
+						cv := call.Value()
+						if cv == nil || cv.Referrers() == nil {
+							return false
+						}
+						uses := 0
+						for _, u := range *cv.Referrers() {
+							if _, isDbg := u.(*ssa.DebugRef); isDbg {
+								continue
+							}
+							bo, isBo := u.(*ssa.BinOp)
+							if !isBo || bo.Op != token.ADD {
+								return false
+							}
+							k, isK := bo.X.(*ssa.Const)
+							if !isK || k.Value == nil || !strings.HasPrefix(k.Value.ExactString(), `"grease-`) {
+								return false
+							}
+							uses++
+						}
+						return uses > 0
+					}
 					if calleeName(cc) != "fmt.Sprintf" {
 						return false
 					}
